@@ -129,6 +129,7 @@ func runChunk(d chunkDesc) ev.Result {
 
 	// producer
 	prodErr := make(chan error, 1)
+	var scratch []byte
 	go func() {
 		var err error
 		defer func() { prodErr <- err }()
@@ -148,22 +149,26 @@ func runChunk(d chunkDesc) ev.Result {
 				return
 			}
 			v := valOf(i, m)
+			// the producer writes from one buffer that it reuses straight after every Write
+			// (as io.Copy does): a Writer must not retain the slice it is given
 			for _, w := range m.Writes {
 				if w <= 0 || w >= len(v) {
 					continue
 				}
 				pp.point()
-				if _, err = writer.Write(v[:w]); err != nil {
+				if _, err = writer.Write(scribbled(&scratch, v[:w])); err != nil {
 					err = fmt.Errorf("Write for message %d (%q): %w", i, k, err)
 					return
 				}
+				scribble(scratch)
 				v = v[w:]
 			}
 			pp.point()
-			if _, err = writer.Write(v); err != nil {
+			if _, err = writer.Write(scribbled(&scratch, v)); err != nil {
 				err = fmt.Errorf("Write for message %d (%q): %w", i, k, err)
 				return
 			}
+			scribble(scratch)
 		}
 		if d.TailYld {
 			if err = writer.ForceNewMessage(); err != nil {
@@ -422,6 +427,18 @@ func remainderCase(mtu, r, kl1, kl2 int, buffered bool) (chunkDesc, bool) {
 		}
 	}
 	return chunkDesc{}, false
+}
+
+// scribbled copies p into the producer's reusable buffer; scribble overwrites that buffer.
+func scribbled(scratch *[]byte, p []byte) []byte {
+	*scratch = append((*scratch)[:0], p...)
+	return *scratch
+}
+
+func scribble(b []byte) {
+	for i := range b {
+		b[i] = ^b[i]
+	}
 }
 
 func TestC15(t *testing.T) {
